@@ -8,13 +8,16 @@ RULE = 'cases are a deterministic function of VERIF_SEED and the case number: sm
 SPEC = {
     'level': 'other',
     'explanation': 'Deductive: no raise statement of next/first/update/upsert/prune/logprob_* is reachable (guards `logprob_trans > 0`, `logprob_obs > 0`, `new_logprob > self.logprob`, asserts) given the callee contracts; transition/emission results are <= 0. Bounded: totality of match() on valid input incl. observations on roads/nodes, repeats, both metrics; (y,x,time) triples == pairs.',
-    'assumptions': ["scipy's float behaviour is external: bounded only", 'float rounding of the guards is covered by the bounded suite (noise values with known 1-ulp excess included)'],
+    'assumptions': ['recursion depth: CPython default recursion limit 1000, at most 200 frames used by the caller and by the call chain above _node_in_prev_ne', "scipy's float behaviour is external: bounded only", 'float rounding of the guards is covered by the bounded suite (noise values with known 1-ulp excess included)'],
     'deductive': [
         ('no-raise(next)', 'next_noprune', 'no-raise'),
         ('K-trans/K-obs(proper probabilities)', 'trans', 'proper-probability'),
         ('K-obs', 'obs', 'proper-probability'),
         ('no-raise(update)', 'update', 'no-raise|update:returns'),
-        ("match(no exception except the documented one; the trace is stored as given)", 'match', r'^(no-raise|init:fresh|result:is-a-pair)')],
+        ("match(no exception except the documented one; the trace is stored as given)", 'match', r'^(no-raise|init:fresh|result:is-a-pair)'),
+        ("_match_non_emitting_states(the depth counter never exceeds the bound)", 'ne_levels', r'^levels:(body-entered|depth-counter)'),
+        ("_node_in_prev_ne(recursion depth bounded by the non-emitting depth, under the lattice invariant)", 'visited', r'^visited:'),
+        ("BaseMatcher.__init__(default depth bound leaves stack headroom: bound + 200 <= 1000)", 'ne_depth', r'^depth:')],
     'bounded': [
         ('totality-and-triples', suites.case_C17, 1500, 25000, RULE + '; ' + 'non-trivial = non-empty match; each case also with (y,x,time) triples and placed on the sphere (lat-lon metric)', '')],
 }
@@ -40,6 +43,39 @@ def _next_noprune(prog, tier):
 
 
 SPEC['extra_builders'] = {'next_noprune': _next_noprune}
+
+
+def long_chain(chk, tier, seed):
+    """bounded: one road digitised as a very long chain of short segments between two fixes (the non-emitting search must stop
+    at its depth bound, not at the interpreter's recursion limit)"""
+    import logging
+    from leuvenmapmatching.map.inmem import InMemMap
+    from leuvenmapmatching.matcher.simple import SimpleMatcher
+    from leuvenmapmatching.matcher.distance import DistanceMatcher
+    logging.getLogger("be.kuleuven.cs.dtai.mapmatching").setLevel(logging.ERROR)
+    n = 1300
+    runs = [(SimpleMatcher, True)] if tier == 'quick' else [(SimpleMatcher, True), (SimpleMatcher, False), (DistanceMatcher, True)]
+    for cls, only_edges in runs:
+        mp = InMemMap('chain', use_latlon=False, use_rtree=False, index_edges=False,
+                      graph={i: ((0.0, float(i)), [i + 1] if i + 1 < n else []) for i in range(n)})
+        kw = dict(max_dist=None, max_dist_init=3, obs_noise=2, non_emitting_states=True, max_lattice_width=None)
+        if cls is SimpleMatcher:
+            kw['only_edges'] = only_edges
+        mt = cls(mp, **kw)
+        try:
+            res = mt.match([(0.2, 0.4), (0.2, n - 1.5)])
+            ok = isinstance(res, tuple) and len(res) == 2
+            if not ok:
+                chk.violation(key='C17:result-is-not-a-(list,index)-pair', text=f"{cls.__name__} on a chain of {n} nodes returned {res!r}",
+                              replay={'kind': 'bounded', 'suite': 'long-chain', 'nodes': n, 'matcher': cls.__name__})
+        except Exception as e:
+            chk.violation(key=f'C17:match-raised-{type(e).__name__}', text=f"{cls.__name__}(only_edges={only_edges}) on one road of {n} short segments with two fixes raised {type(e).__name__}",
+                          replay={'kind': 'bounded', 'suite': 'long-chain', 'nodes': n, 'matcher': cls.__name__, 'only_edges': only_edges, 'error': repr(e)[:300]})
+    chk.bounded_suite('long-chain(two fixes far apart on one road of 1300 segments)', len(runs), len(runs), [{'nodes': n}],
+                      'a straight one-way chain of 1300 nodes one unit apart, fixes next to the first and the last-but-one segment, non-emitting states on, no cut-offs', '')
+
+
+SPEC['post'] = [long_chain]
 
 
 def run(tier, seed, only=None):
